@@ -860,7 +860,8 @@ class Engine:
         if v is None:
             return VNone()
         if isinstance(v, float):
-            fr = Fraction(v)
+            # in code: the exact value of the double; in specifications: the decimal that was written
+            fr = Fraction(v) if not st.spec_mode else Fraction(repr(v))
             return VReal(z3.RealVal(fr.numerator) / z3.RealVal(fr.denominator))
         if v is Ellipsis:
             return VNone()
@@ -1051,6 +1052,11 @@ class Engine:
                 return VInt(z3.simplify(x - y))
             if isinstance(op, ast.Mult):
                 return VInt(z3.simplify(x * y))
+            if isinstance(op, ast.Pow):
+                xs, ys = z3.simplify(x), z3.simplify(y)
+                if z3.is_int_value(xs) and z3.is_int_value(ys) and 0 <= ys.as_long() <= 64:
+                    return VInt(xs.as_long() ** ys.as_long())
+                raise Unsupported("symbolic power", node)
             if isinstance(op, ast.FloorDiv):
                 self.require(st, y != 0, "ZeroDivisionError", node, "floor division")
                 # Python floor division: z3 div is Euclidean for positive divisor; handle sign
@@ -1099,6 +1105,10 @@ class Engine:
                 if attr in c.class_attrs and attr not in c.init_fields():
                     return self.class_attr(st, c, attr, node)
             if attr not in known:
+                ext_bases = [b for c in base.cls.mro() for b in c.bases if isinstance(b, str) and b not in ("ABC", "object")
+                             and not b.startswith("Generic")]
+                if ext_bases:
+                    return VFunc("objext", self_v=base, name=attr)
                 raise Unsupported(f"unknown attribute {base.cls.name}.{attr}", node)
             return self.get_field(st, base, attr, node)
         if isinstance(base, VClass):
@@ -1273,6 +1283,10 @@ class Engine:
                 return self.b.call_method(st, fv.self_v, fv.name, args, kwargs, node)
             if k == "extfn":
                 return self.b.call_external(st, fv.name, args, kwargs, node)
+            if k == "objext":
+                # method inherited from an external base class (rich Table ...): ghost output event
+                st.trace.append(Event(fv.self_v, fv.name, list(args), dict(kwargs), getattr(node, "lineno", 0)))
+                return VNone()
         if isinstance(fv, VClass):
             return self.construct(st, fv.cls, args, kwargs, node)
         if isinstance(fv, VType):
@@ -1490,6 +1504,9 @@ class Engine:
         r = self._call_function(st, fn, args, kwargs, node)
         ev2 = Event("call", fn.qualname, list(args), dict(kwargs), getattr(node, "lineno", 0))
         ev2.result = r
+        ev2.key = fn.key
+        cc = self.reg.get(fn.key)
+        ev2.modular = cc is not None and not cc.inline
         # the callee may have appended events (inline execution): keep order, replace the marker
         if pos < len(st.trace) and st.trace[pos] is ev:
             st.trace[pos] = ev2
@@ -1580,6 +1597,27 @@ class Engine:
         return t
 
     def call_contract(self, st: State, fn: FuncInfo, c: Contract, args, kwargs, node) -> V:
+        if c.pure and not c.modifies and not c.raises and not c.fresh_result:
+            try:
+                key = (fn.key, tuple(str(self.unwrap(st, a)) for a in args), tuple(sorted(kwargs)),
+                       tuple(sorted((str(k), v.get_id()) for k, v in st.heap.items())))
+            except Unsupported:
+                key = None
+            memo = st.ghost.get("pure_memo", {})
+            if key is not None and key in memo:
+                return memo[key]
+            r = self._call_contract(st, fn, c, args, kwargs, node)
+            if key is not None:
+                memo = dict(st.ghost.get("pure_memo", {}))
+                key2 = (key[0], key[1], key[2], tuple(sorted((str(k), v.get_id()) for k, v in st.heap.items())))
+                memo[key] = r
+                memo[key2] = r
+                st.ghost = dict(st.ghost)
+                st.ghost["pure_memo"] = memo
+            return r
+        return self._call_contract(st, fn, c, args, kwargs, node)
+
+    def _call_contract(self, st: State, fn: FuncInfo, c: Contract, args, kwargs, node) -> V:
         env = self.bind_params(st, fn.node, args, kwargs, node, fn.module)
         for pname, pt in c.params.items():
             if pname in env:
@@ -1893,9 +1931,7 @@ class Engine:
             st.writes.append((("F", base.cls.key, "@" + attr), z3.IntVal(0), getattr(node, "lineno", 0)))
             return
         if isinstance(base, VExt):
-            base.attrs = dict(base.attrs)
-            base.attrs[attr] = v
-            st.trace.append(Event(base, "setattr:" + attr, [v], {}, getattr(node, "lineno", 0)))
+            st.ext_set(base, attr, v)
             return
         raise Unsupported(f"attribute store on {base!r}", node)
 
